@@ -7,6 +7,6 @@ CONSTANTS
   DealD = 0
   Eta = 0
 INIT Init
-NEXT Next
-INVARIANTS SpansIffQualified PolicyMonotone DefsAgree PerfectPrivacy SharesAreMr ReconstructOK ConvertOK LinearOK
+NEXT Inducing
+INVARIANTS SpansIffQualified PolicyMonotone DefsAgree PerfectPrivacy
 CHECK_DEADLOCK FALSE
